@@ -60,8 +60,8 @@ def run(ck, models, tier):
                     why = "stub decodes to %s" % mn
                     if ok and r.boolval is not None:
                         exp0 = r.boolval.get_bits()[0]
-                        ok = x0[0] == exp0 and all(b == 0 for b in x0[1:8])
-                        why += "; w0 = %s (expected bit0 = the requested value, bits 1..7 = 0)" % fmt(from_bits(x0[:8]), 3)
+                        ok = x0[0] == exp0 and all(b == 0 for b in x0[1:32])
+                        why += "; w0 = %s (expected bit0 = the requested value, bits 1..31 = 0)" % fmt(from_bits(x0[:32]), 3)
                     ck.ob("R15.6", "%s/%s/stub" % (tm.os, rn), tm.target, ok, why, where(r.ev))
                 wr = set(r.sim["written"])
                 allowed = CALLER_SAVED_TEMPS | ({"x0"} if r.repl is None else set())
@@ -97,6 +97,9 @@ def run(ck, models, tier):
                     regs3 = {i.get("rd") for i in r.sim["ins"][:2]} | {r.sim["ins"][1].get("rn"), r.sim["ins"][2].get("rn")}
                     ck.ob("R15.4", "%s/%s/entry/adrp-same-register" % (tm.os, rn), tm.target, len(regs3) == 1,
                           "ADRP/ADD/BR use register(s) %s" % sorted(regs3), where(r.ev))
+        if tm.os == "macos":
+            k8 = patches.jit_window_obligations(ck, "R15.2", tm)
+            ck.floor("R15.2", "trampoline-writes-in-a-jit-write-window", k8, 6, tm.target)
         # R15.7 the trampoline is complete before the entry branches to it (shared with C01 R1.8)
         k7 = patches.order_obligations(ck, "R15.7", tm)
         ck.floor("R15.7", "install-paths-with-entry-and-trampoline", k7, 6, tm.target)
